@@ -224,6 +224,13 @@ def m_slice(pep, i, j, keep_labile=True):
         q['nterm'] = []
     if j < n:
         q['cterm'] = []
+    # a static N-Term / C-Term rule is a terminal modification of the whole peptide: it stays only with that terminus
+    st_new = []
+    for mods, targets in pep['static']:
+        kept = [t for t in targets if not ((t == 'N-Term' and i > 0) or (t == 'C-Term' and j < n))]
+        if kept:
+            st_new.append([copy.deepcopy(mods), kept])
+    q['static'] = st_new
     if not keep_labile:
         q['labile'] = []
     return copy.deepcopy(q)
